@@ -1,0 +1,14 @@
+//go:build verif
+
+package tmi
+
+// verifKernelHook is installed by the /verif conformance harness (build tag "verif" only).
+// It is called in the kernel goroutine at the end of each main loop case,
+// i.e. after the state change and before the next request is handled.
+var verifKernelHook func(k *Kernel, ev string, s *kState)
+
+func verifTrace(k *Kernel, ev string, s *kState) {
+	if verifKernelHook != nil {
+		verifKernelHook(k, ev, s)
+	}
+}
